@@ -222,8 +222,15 @@ func genFile(seed uint64, faulty bool) *Scenario {
 	}
 	if fs.Layout == "k8s" && g.pct(30) {
 		// end with a swap immediately followed by a short rewrite through the path
-		w.Ops = append(w.Ops, Op{K: "k8s-swap", Part: g.filePart(pInvalid), N: g.in(0, 1)},
-			Op{K: "rewrite", Part: g.filePart(0), N: 1})
+		sw := Op{K: "k8s-swap", Part: g.filePart(pInvalid), N: g.in(0, 1)}
+		if g.pct(35) {
+			sw.Part, sw.Str = nil, "same"
+		}
+		w.Ops = append(w.Ops, sw)
+		if g.pct(50) {
+			w.Ops = append(w.Ops, Op{K: "sleep", D: int64(g.in(1, 5000)) * 1e6})
+		}
+		w.Ops = append(w.Ops, Op{K: "rewrite", Part: g.filePart(0), N: 1})
 	}
 	sc.Clients = append(sc.Clients, w)
 	if g.pct(40) {
@@ -280,6 +287,9 @@ func (g *gen) writerOp(fs *FileSpec, pInvalid int) Op {
 		}
 		op := content()
 		op.K, op.N = "k8s-swap", g.in(0, 1) // N=1: remove the old timestamped directory afterwards
+		if g.pct(20) {
+			op.Part, op.Str = nil, "same" // the new directory holds a byte-identical copy
+		}
 		return op
 	}
 	switch g.r.IntN(12) {
@@ -459,7 +469,17 @@ func (r *Run) writer(c *ClientSpec) {
 			simrt.Yield("w.burst")
 			r.probe("burst")
 		case "k8s-swap":
-			content := r.contentFor(op, st)
+			var content []byte
+			if op.Str == "same" {
+				b, err := os.ReadFile(f.path)
+				if err != nil {
+					continue
+				}
+				content = b
+				r.probe("k8s-swap-identical-content")
+			} else {
+				content = r.contentFor(op, st)
+			}
 			old := fmt.Sprintf("..ts-%d.", f.tsN)
 			f.tsN++
 			ts := fmt.Sprintf("..ts-%d.", f.tsN)
